@@ -879,3 +879,165 @@ Proof.
   rewrite (evaluate_tree s (regroup e)); [|eapply parse_is_postfix; eassumption].
   rewrite regroup_value by exact Hc. reflexivity.
 Qed.
+
+(* ================================================================== Part 7 *)
+(* ---- 7a: what the loop reads is a token list the string spells *)
+Lemma firstn_app_len {A} (l s : list A) k : firstn (length l + k) (l ++ s) = l ++ firstn k s.
+Proof. induction l; cbn; [reflexivity|]. f_equal. assumption. Qed.
+Lemma skipn_app_len {A} (l s : list A) k : skipn (length l + k) (l ++ s) = skipn k s.
+Proof. induction l; cbn; auto. Qed.
+Lemma skipn_skipn_add {A} a : forall b (l : list A), skipn a (skipn b l) = skipn (b + a) l.
+Proof.
+  intros b. induction b as [|b IH]; intros l; cbn [skipn Nat.add]; [reflexivity|].
+  destruct l as [|x l]; [destruct a; reflexivity|]. apply IH.
+Qed.
+
+Lemma spanw_firstn_digits s :
+  spanw is_number s <> 0 -> all_digits (firstn (spanw is_number s) s).
+Proof.
+  intros H. split; [|apply spanw_spec].
+  destruct s as [|c s]; [cbn in H; congruence|]. cbn [spanw] in *.
+  destruct (is_number c); [cbn; discriminate|congruence].
+Qed.
+
+Lemma consume_number_sound s n :
+  consume_number s = Some n ->
+  exists d, NumLit (firstn n s) d /\ head_not is_number (skipn n s).
+Proof.
+  unfold consume_number. destruct s as [|c s]; [cbn; discriminate|].
+  cbn [starts_with_c]. destruct (c =? c_dot)%N eqn:Ed.
+  - apply N.eqb_eq in Ed. subst c. cbn [skipn andb].
+    destruct (Nat.eqb_spec (spanw is_number s) 0) as [E0|E0]; cbn [negb]; [discriminate|].
+    intros H. inversion H; subst. cbn [Nat.add firstn skipn].
+    eexists. split; [apply NL_short, spanw_firstn_digits, E0|apply spanw_spec].
+  - cbn [skipn andb].
+    destruct (Nat.eqb_spec (spanw is_number (c :: s)) 0) as [E0|E0]; cbn [negb]; [discriminate|].
+    set (s0 := c :: s) in *. set (d2 := spanw is_number s0) in *.
+    pose proof (spanw_firstn_digits s0 E0) as Hds. fold d2 in Hds.
+    pose proof (spanw_spec is_number s0) as [_ Hh]. fold d2 in Hh.
+    pose proof (firstn_skipn d2 s0) as Hsplit.
+    assert (Hlen : length (firstn d2 s0) = d2).
+    { apply firstn_length_le. apply spanw_le1. }
+    destruct (skipn d2 s0) as [|c3 s3] eqn:E3; cbn [starts_with_c].
+    + intros H. inversion H; subst n. cbn [Nat.add]. rewrite E3.
+      eexists. split; [apply NL_int; exact Hds|exact I].
+    + destruct (c3 =? c_dot)%N eqn:Ed3.
+      * apply N.eqb_eq in Ed3. subst c3. cbn [skipn].
+        destruct (Nat.eqb_spec (spanw is_number s3) 0) as [E4|E4]; cbn [negb]; [discriminate|].
+        intros H. inversion H; subst n.
+        set (d3 := spanw is_number s3) in *.
+        rewrite <- Hsplit.
+        replace (d2 + 1 + d3) with (length (firstn d2 s0) + S d3) by lia.
+        rewrite firstn_app_len, skipn_app_len. cbn [firstn skipn].
+        eexists. split.
+        -- apply NL_frac; [exact Hds|]. apply spanw_firstn_digits. exact E4.
+        -- apply spanw_spec.
+      * intros H. inversion H; subst n. cbn [Nat.add]. rewrite E3.
+        eexists. split; [apply NL_int; exact Hds|exact Hh].
+Qed.
+
+(* errors of one round are the parse error only *)
+Lemma scan_pstep s p n st :
+  scan s = Some (p, n) -> (exists st', pstep st p = Ok st') \/ pstep st p = math_err.
+Proof.
+  unfold scan. destruct (consume_number s) as [k|] eqn:E.
+  - intros H. inversion H; subst. apply consume_number_sound in E. destruct E as (d & HL & _).
+    cbn [pstep]. rewrite (numlit_float _ _ HL). destruct (negb (has (expected st) PS_Primary)); eauto.
+  - destruct s as [|c s]; [discriminate|].
+    destruct (is_operator c).
+    { intros H. inversion H; subst. cbn [pstep].
+      destruct (is_sign c && has (expected st) PS_Sign); eauto.
+      destruct (negb (has (expected st) PS_Operator)); eauto. }
+    destruct (c =? c_lparen)%N.
+    { intros H. inversion H; subst. cbn [pstep]. destruct (negb (has (expected st) PS_LParen)); eauto. }
+    destruct (c =? c_rparen)%N; [|discriminate].
+    intros H. inversion H; subst. cbn [pstep].
+    destruct (priority st - 10 <? 0)%Z; eauto.
+    destruct (has (expected st) PS_Nullary); eauto.
+    destruct (negb (has (expected st) PS_RParen)); eauto.
+Qed.
+
+Lemma parse_loop_res : forall n s st, length s <= n ->
+  (exists st', parse_loop 0 s st = Ok st') \/ parse_loop 0 s st = math_err.
+Proof.
+  induction n as [|n IH]; intros s st Hlen.
+  - destruct s; [left; eexists; reflexivity|cbn in Hlen; lia].
+  - destruct s as [|c s']; [left; eexists; reflexivity|].
+    rewrite parse_loop_step by discriminate.
+    set (s := c :: s') in *. set (nws := spanw is_white_space s).
+    destruct (scan (skipn nws s)) as [[p k]|] eqn:Es; [|right; reflexivity].
+    destruct (scan_pstep _ _ _ st Es) as [[st1 H1]|H1]; rewrite H1; cbn [bind]; [|right; reflexivity].
+    apply IH. apply scan_bounds in Es. rewrite skipn_length in *. unfold s in *. cbn [length] in *. lia.
+Qed.
+
+(* after a number, a '.' cannot follow *)
+Lemma dot_after_operand rest st :
+  expected st = EXP_after_operand -> starts_with_c c_dot rest = true ->
+  forall st', parse_loop 0 rest st <> Ok st'.
+Proof.
+  intros Hex Hd st'. destruct rest as [|c r]; [discriminate|]. cbn in Hd. apply N.eqb_eq in Hd. subst c.
+  rewrite parse_loop_step by discriminate.
+  cbn [spanw]. replace (is_white_space c_dot) with false by reflexivity. cbn [skipn].
+  unfold scan. destruct (consume_number (c_dot :: r)) as [k|].
+  - cbn [pstep]. rewrite Hex. replace (negb (has EXP_after_operand PS_Primary)) with true by reflexivity.
+    cbn. discriminate.
+  - replace (is_operator c_dot) with false by reflexivity.
+    replace (c_dot =? c_lparen)%N with false by reflexivity.
+    replace (c_dot =? c_rparen)%N with false by reflexivity. discriminate.
+Qed.
+
+Lemma lex_of_run : forall n s st st', length s <= n ->
+  parse_loop 0 s st = Ok st' -> exists ts, Lex s ts /\ trun st ts = Ok st'.
+Proof.
+  induction n as [|n IH]; intros s st st' Hlen H.
+  - destruct s; [|cbn in Hlen; lia]. cbn in H. inversion H; subst. exists []. split; [constructor|reflexivity].
+  - destruct s as [|c s']; [cbn in H; inversion H; subst; exists []; split; [constructor|reflexivity]|].
+    rewrite parse_loop_step in H by discriminate.
+    set (s := c :: s') in *. set (nws := spanw is_white_space s) in *.
+    destruct (scan (skipn nws s)) as [[p k]|] eqn:Es; [|discriminate].
+    destruct (pstep st p) as [st1| | |] eqn:Ep; cbn [bind] in H; try discriminate.
+    pose proof (scan_bounds _ _ _ Es) as Hb. rewrite skipn_length in Hb.
+    set (rest := skipn (nws + k) s) in *.
+    assert (Hrl : length rest <= n).
+    { unfold rest. rewrite skipn_length. unfold s in *. cbn [length] in *. lia. }
+    destruct (IH rest st1 st' Hrl H) as (ts & HLex & Hrun).
+    pose proof (spanw_spec is_white_space s) as [Hws _]. fold nws in Hws.
+    assert (Hs : s = firstn nws s ++ firstn k (skipn nws s) ++ rest).
+    { unfold rest. rewrite <- (firstn_skipn nws s) at 1. f_equal.
+      rewrite <- (firstn_skipn k (skipn nws s)) at 1. f_equal.
+      rewrite skipn_skipn_add. reflexivity. }
+    assert (Hrest : rest = skipn k (skipn nws s)).
+    { unfold rest. rewrite skipn_skipn_add. reflexivity. }
+    (* the token *)
+    assert (HT : exists t, Spell t (firstn k (skipn nws s)) /\ Sep t rest /\ tstep st t = Ok st1).
+    { unfold scan in Es. destruct (consume_number (skipn nws s)) as [k'|] eqn:Ec.
+      - inversion Es; subst p k'. clear Es.
+        destruct (consume_number_sound _ _ Ec) as (d & HL & Hh).
+        exists (TNum d). split; [constructor; exact HL|].
+        cbn [pstep] in Ep. rewrite (numlit_float _ _ HL) in Ep.
+        destruct (negb (has (expected st) PS_Primary)) eqn:Eh; [discriminate|].
+        split.
+        + rewrite <- Hrest in Hh. cbn [Sep]. destruct rest as [|c0 r0] eqn:Er; [exact I|].
+          split; [exact Hh|]. intros ->.
+          inversion Ep; subst st1.
+          revert H. apply dot_after_operand; reflexivity.
+        + cbn [tstep]. rewrite Eh. exact Ep.
+      - destruct (skipn nws s) as [|c0 s0] eqn:E0; [discriminate|].
+        destruct (is_operator c0) eqn:Eo.
+        { inversion Es; subst p k. cbn [firstn].
+          apply operator_cases in Eo.
+          assert (exists o, c0 = op_char o) as [o ->].
+          { destruct Eo as [-> | [-> | [-> | [-> | ->]]]];
+              [exists Add|exists Sub|exists Mul|exists Div|exists IDiv]; reflexivity. }
+          exists (TOp o). split; [constructor|]. split; [exact I|exact Ep]. }
+        destruct (c0 =? c_lparen)%N eqn:El.
+        { inversion Es; subst p k. cbn [firstn]. apply N.eqb_eq in El. subst c0.
+          exists TLP. split; [constructor|]. split; [exact I|exact Ep]. }
+        destruct (c0 =? c_rparen)%N eqn:Er; [|discriminate].
+        inversion Es; subst p k. cbn [firstn]. apply N.eqb_eq in Er. subst c0.
+        exists TRP. split; [constructor|]. split; [exact I|exact Ep]. }
+    destruct HT as (t & HSp & HSep & Hst).
+    exists (t :: ts). split.
+    + rewrite Hs. constructor; assumption.
+    + cbn [trun]. rewrite Hst. cbn [bind]. exact Hrun.
+Qed.
